@@ -224,9 +224,14 @@ def _big_stack():
 
 
 HARNESS_DEGRADED = None
+HARNESS_MISSING = set()      # names of the function-level calls the harness had to be built without
+FN_CALLS = ["compute_swap", "compute_offer_amount", "lp_share", "max_spread", "slippage", "sent_native", "assert_ops"]
 
 
 def build_harness(timeout=1500):
+    """Build the harness (both profiles) against /repo.  The harness calls a few internal helper functions directly, one
+    cargo feature per function; when the full build fails (a signature or a visibility changed), the calls that no longer
+    compile are probed one by one and left out: HARNESS_MISSING names them, everything else keeps working."""
     _point_harness_at_repo()
     with Lock("cargo.lock"):
         lock_src = "/repo/Cargo.lock"
@@ -234,6 +239,7 @@ def build_harness(timeout=1500):
         if not os.path.exists(lock_dst) and os.path.exists(lock_src):
             import shutil
             shutil.copy(lock_src, lock_dst)
+
         def cargo(extra):
             # the two profiles are independent builds: run them side by side
             cmds = [["cargo", "build", "--offline", "--quiet"] + extra,
@@ -253,18 +259,30 @@ def build_harness(timeout=1500):
         rc, out = cargo([])
         if rc is None:
             return False, "TIMEOUT"
-        global HARNESS_DEGRADED
+        global HARNESS_DEGRADED, HARNESS_MISSING
         HARNESS_DEGRADED = None
+        HARNESS_MISSING = set()
         if rc != 0:
-            # a signature of one of the internal helper functions the harness calls directly may have changed: fall back
-            # to the harness without those calls, so that the entry points can still be driven and a failing input sought
-            rc2, out2 = cargo(["--no-default-features"])
+            def probe(feats):
+                try:
+                    q = subprocess.run(["cargo", "check", "--offline", "--quiet", "--no-default-features"]
+                                       + (["--features", ",".join(feats)] if feats else []), cwd=HARNESS_DIR, env=ENV,
+                                       stdout=subprocess.PIPE, stderr=subprocess.STDOUT, text=True, timeout=timeout)
+                    return q.returncode == 0
+                except subprocess.TimeoutExpired:
+                    return False
+            if not probe([]):
+                return False, out[-6000:]
+            good = [f for f in FN_CALLS if probe(["fn_" + f])]
+            rc2, out2 = cargo(["--no-default-features"] + (["--features", ",".join("fn_" + f for f in good)] if good else []))
             if rc2 is None:
                 return False, "TIMEOUT"
             if rc2 == 0:
                 HARNESS_DEGRADED = out[-3000:]
+                HARNESS_MISSING = set(FN_CALLS) - set(good)
                 return True, out[-6000:]
-        return rc == 0, out[-6000:]
+            return False, out2[-6000:]
+        return True, out[-6000:]
 
 
 def run_harness(lines, timeout=1200, binary=None):
@@ -670,9 +688,7 @@ def main_check(chk, argv):
     # 2. implementation side
     ok, out = build_harness()
     if ok and HARNESS_DEGRADED:
-        log("HARNESS BUILT WITHOUT THE FUNCTION-LEVEL API:\n" + HARNESS_DEGRADED[-2000:])
-        broken.append("the harness no longer builds against /repo with its direct calls to internal helper functions "
-                      "(a signature changed); function-level correspondence unavailable, entry points still driven")
+        log("HARNESS BUILT WITHOUT ITS DIRECT CALLS TO %s:\n%s" % (sorted(HARNESS_MISSING), HARNESS_DEGRADED[-2000:]))
     if not ok:
         log("HARNESS BUILD FAILED:\n" + out[-3000:])
         broken.append("harness does not build against /repo (correspondence unavailable)")
@@ -686,6 +702,37 @@ def main_check(chk, argv):
             broken.append("case generation failed against the current /repo: %r" % (e,))
             fams = []
 
+    # Direct calls the harness had to be built without (a signature or the visibility of an internal helper changed): the
+    # cases that need them cannot run.  The function is still reached through the contracts' entry points, so the families
+    # that drive the entry points are run at the size of the thorough tier instead; only when a property is left with no
+    # family at all is the tie reported broken.
+    lost_calls = {}
+    if ok and HARNESS_MISSING and fams:
+        def usable(c):
+            return not any(call[0].split()[0] in HARNESS_MISSING for call in c.calls)
+        kept = []
+        for fname, cases in fams:
+            good = [c for c in cases if usable(c)]
+            if len(good) != len(cases):
+                lost_calls[fname] = len(cases) - len(good)
+            if good:
+                kept.append((fname, good))
+        if lost_calls:
+            log("cases that need the missing direct calls: %r; entry-point families run at thorough size instead" % lost_calls)
+            if tier != "thorough":
+                try:
+                    big = chk.families(SeedRng(seed), "thorough")
+                    bigw = {fn: [c for c in cs if usable(c)] for fn, cs in big if cs and all(not c.calls for c in cs)}
+                    kept = [(fn, bigw.get(fn, cs)) for fn, cs in kept]
+                except Exception as e:
+                    notes.append("fallback generation failed: %r" % (e,))
+            notes.append("function-level calls unavailable (%s): %d case(s) skipped, entry-point families enlarged"
+                         % (", ".join(sorted(HARNESS_MISSING)), sum(lost_calls.values())))
+            if not any(all(not c.calls for c in cs) for _, cs in kept):
+                broken.append("the harness no longer builds with its direct calls to %s and the property has no "
+                              "entry-point family to fall back on" % sorted(HARNESS_MISSING))
+        fams = kept
+
     fam_stats, all_cases, samples = [], [], []
     evaluations = nontrivial = 0
     known_hits = 0
@@ -697,7 +744,7 @@ def main_check(chk, argv):
         nonlocal evaluations, nontrivial, known_hits, found_concrete
         suspects = []
         for fname, cases in fams:
-            cases = dedupe(cases)
+            cases = [c for c in dedupe(cases) if not any(call[0].split()[0] in HARNESS_MISSING for call in c.calls)]
             if not cases:
                 continue
             try:
@@ -750,6 +797,7 @@ def main_check(chk, argv):
     stale = []
     kfs = load_known_findings(prop)
     wit = chk.witnesses() if ok else {}
+    wit = {k: c for k, c in wit.items() if not any(call[0].split()[0] in HARNESS_MISSING for call in c.calls)}
     for f in kfs:
         if f["kind"] != "finding":
             continue
@@ -822,6 +870,8 @@ def main_check(chk, argv):
             "known_class_hits": known_hits,
             "stale_known_findings": stale,
             "broken": broken[:20],
+            "missing_direct_calls": sorted(HARNESS_MISSING),
+            "cases_skipped_for_missing_calls": lost_calls,
             "forbidden_constructs": bad[:20],
         },
         "assumptions": list(getattr(chk, "assumptions", [])),
